@@ -10,9 +10,18 @@ CompileOpts == { [o |-> "define", v |-> "42"], [o |-> "define", v |-> "a b"], [o
                  [o |-> "optimize", v |-> "size"], [o |-> "optimize", v |-> "linktime"], [o |-> "pic", v |-> ""],
                  [o |-> "pthread", v |-> ""], [o |-> "sanitize", v |-> ""], [o |-> "pch", v |-> ""] }
 \* (debug and pthread given only at link time have no effect a probe can observe)
-LinkOpts == { [o |-> "static", v |-> ""], [o |-> "lib", v |-> ""] }
+\* lib: by name next to lib_dir (v = ""), or a pre-built library FILE object (v = its file name; the
+\* linker model of bfg9000 turns it into -L<dir> -l<name> or passes the path)
+LinkOpts == { [o |-> "static", v |-> ""], [o |-> "lib", v |-> ""], [o |-> "lib", v |-> "libext.so"],
+              [o |-> "lib", v |-> "libext.api.so"], [o |-> "lib", v |-> "libext-1.2.so"],
+              [o |-> "lib", v |-> "libext.so.x.so"], [o |-> "lib", v |-> "libext.abi.a"],
+              [o |-> "lib", v |-> "libext.a"] }
 Slots == { [o |-> x.o, v |-> x.v, where |-> w] : x \in CompileOpts, w \in {"target", "global", "toolchain"} }
-         \cup { [o |-> x.o, v |-> x.v, where |-> w] : x \in LinkOpts, w \in {"link", "globallink"} }
+         \* (a library FILE in global_link_options is rejected at configure time - "unable to construct
+         \*  rpath": there is no output to be relative to - so file values are placed per target only)
+         \cup { [o |-> x.o, v |-> x.v, where |-> w] : x \in { y \in LinkOpts : ~(y.o = "lib" /\ y.v # "") },
+                                                           w \in {"link", "globallink"} }
+         \cup { [o |-> x.o, v |-> x.v, where |-> "link"] : x \in { y \in LinkOpts : y.o = "lib" /\ y.v # "" } }
          \cup { [o |-> "envdef", v |-> "", where |-> "env"] }
 VARIABLE c
 Init == c \in { [lang |-> l, slots |-> <<a>>] : l \in Langs, a \in Slots }
